@@ -14,6 +14,26 @@ Options are not state: after every case the option attributes of the converter (
 `_unstruct_collection_overrides`, `type_overrides`, the flags, the strategy) must be what they were at construction
 ("behaviour is a function of construction options and registration history alone").
 
+Every run that serves as a reference for another one is made on a thread of its own (`dispatch_common.in_thread`): the
+warmed converter of a case on one thread, every fresh replay on another -- cattrs keeps per-thread state while it generates
+hooks, and a reference run that shares it with the run it is compared with could not differ from it.
+
+FAILING cache-filling calls: configurations with a STRICT `unstructure_fallback_factory` (raises when asked for a hook: every
+type without a registered hook fails until the user registers one) and user hook factories that RAISE on some of the types
+their predicate accepts.  "call fails because a hook is missing -> register the hook -> call again" is an interleaving like
+any other: the second call must give what a fresh converter with the same registrations gives.
+Immediacy sweep (`immediacy_cases`): for EVERY registration target r x every kind of registration for it x both converter
+classes x both directions (x strict fallback when unstructuring), ALL universe types whose hook depends on r (r itself, its
+subclasses, every composite type and class it occurs in, mappings of unions included) are warmed first, r is registered, and
+all of them are probed again ("every registration takes effect immediately, also for types that were already used").
+COPY steps (`copy()` / `deepcopy` / `copy(<option overrides>)`, also of copies) inside the histories: a copy is a converter
+constructed from (the source's options, the given ones replaced) + (the registrations the source had received); whatever
+the source was USED for before is no part of it.  Every converter of the store is probed at the cut points and compared
+with a fresh converter constructed with its options that replays its registrations (`dispatch_common.store_view`); at
+these cut points also on option-sensitive probes nested in collections (`OPT_PROBES`, implementation only).  Model side:
+the store history runs through RUNHIST (`copyOf` starts a copy with empty caches); theorem C08_transparent_store says every
+converter of any store history answers like a fresh converter built as its origin that replays only its registrations.
+
 Derived-state stream (implementation only, `derived_stream`; outside the Lean Dispatch model, whose hooks carry no
 attributes): registrations whose effect on OTHER types goes through state derived from hooks -- the default union
 disambiguator reads the `overrides` of the structure hooks registered for the member classes (`create_default_dis_func(...,
@@ -28,9 +48,12 @@ from harness import dispatch_common as dc
 from harness.dispatch_common import DIRS, ST, UN, ConvCfg, Impl, U
 from harness.dispatch_derived import derived_replay, derived_stream
 from harness.props.c07 import gen_cfg as _gen_cfg07
-from harness.props.c18 import COLL_CHOICES, TYO_CHOICES
+from harness.props.c18 import COLL_CHOICES, TYO_CHOICES, ext_battery, gen_copy
 
 REG = ("hook", "func", "factory")
+# option-sensitive probes of C18's `EXT` whose hooks are generated with the options baked in and parked in a cache
+OPT_PROBES = ("list[ExtDf]=default", "dict[str,A]+extra-key", "tuple[ExtDf,int]=default", "set[int]", "An[frozenset[int]]",
+              "ExtS(annotated-set-fields)", "dict[str,ExtT](float-field)", "list[A](invalid)", "A+extra-key", "ExtDf=default")
 
 
 def gen_cfg(rng):
@@ -40,25 +63,44 @@ def gen_cfg(rng):
         cc.extra["unstruct_collection_overrides"] = rng.choice(COLL_CHOICES[1:])
     if cc.klass == "Converter" and rng.random() < 0.2:
         cc.extra["type_overrides"] = rng.choice(TYO_CHOICES[1:])
+    if rng.random() < 0.15:
+        cc.fb_un = dc.STRICT_FB[0]   # a strict unstructure fallback factory: hook generation FAILS for unregistered types
     return cc
 
 
-def build_history(rng, cc, preds, n_ops, p_warm=0.55):
+def build_history(rng, cc, preds, n_ops, p_warm=0.55, copies=0):
+    """registrations interleaved with warm-ups; `copies` copy steps at random positions (source = any converter that exists
+    then); afterwards the operations are spread over all converters of the store"""
     cnt = itertools.count(1)
     h = []
-    for _ in range(n_ops):
+    cfgs = [cc]
+    copy_at = set(rng.sample(range(1, n_ops + 1), min(copies, n_ops))) if copies else ()
+    for i in range(n_ops):
+        if i in copy_at:
+            src = rng.randrange(len(cfgs))
+            step = gen_copy(rng, src, cfgs[src])
+            h.append(step)
+            cfgs.append(ConvCfg.from_json(step["cfg"]))
+            continue
         d = rng.choice(DIRS)
+        j = rng.randrange(len(cfgs)) if len(cfgs) > 1 else 0
         if rng.random() < p_warm:
-            h.append(dc.gen_warm(rng, 0, d, cc))
+            h.append(dc.gen_warm(rng, j, d, cfgs[j]))
         else:
-            h.append(dc.gen_reg(rng, 0, d, preds, lambda: next(cnt), prev=h))
+            strict = cfgs[j].fb_un in dc.STRICT_FB and d == UN and rng.random() < 0.5
+            if strict:   # under a strict fallback the registrations that repair failing calls: hooks for leaf classes
+                h.append({"op": "hook", "conv": j, "dir": d, "ty": U.k(rng.choice(["int", "int", "object", "P", "A"])), "tag": next(cnt),
+                          "form": "call"})
+            else:
+                h.append(dc.gen_reg(rng, j, d, preds, lambda: next(cnt), prev=[o for o in h if o.get("conv") == j], fraise=0.15))
     return h
 
 
-def with_batteries(rng, cc, history, n_cuts, battery):
-    """Insert probe batteries at `n_cuts` random positions and at the end; returns the full op list and, for every
-    probe op index, the number of history ops before it."""
-    cuts = sorted(rng.sample(range(len(history) + 1), min(n_cuts, len(history) + 1))) if history else []
+def with_batteries(rng, cc, history, n_cuts, battery, dirs=DIRS, cuts=None):
+    """Insert probe batteries (on EVERY converter that exists at that point) at `n_cuts` random positions and at the end;
+    returns the full op list and, for every probe op index, the number of history ops before it."""
+    if cuts is None:
+        cuts = sorted(rng.sample(range(len(history) + 1), min(n_cuts, len(history) + 1))) if history else []
     if len(history) not in cuts:
         cuts.append(len(history))
     full, prefix_of = [], {}
@@ -66,57 +108,84 @@ def with_batteries(rng, cc, history, n_cuts, battery):
     for c in cuts:
         full += history[pos:c]
         pos = c
-        for d in DIRS:
-            for p in dc.probe_ops(0, d, cc, battery):
-                prefix_of[len(full)] = c
-                full.append(p)
+        cfgs, _ = dc.store_view(history[:c], [cc])
+        for j, cj in enumerate(cfgs):
+            for d in dirs:
+                for p in dc.probe_ops(j, d, cj, battery):
+                    prefix_of[len(full)] = c
+                    full.append(p)
     return full, prefix_of
 
 
-def run_case(drv, cc, preds, history, full, prefix_of):
-    impl = Impl(preds)
-    impl.make(cc)
-    res_i = {}
-    for n, op in enumerate(full):
-        r = impl.do(op)
-        if n in prefix_of:
-            res_i[n] = r
-    # oracle: fresh converters replaying only the registrations before each battery
+def run_case(drv, cc, preds, history, full, prefix_of, opt_probes=False):
+    """-> (res_i, res_p, res_m): results of every probe op of `full` on the warmed store, on fresh replays, on the model;
+    with `opt_probes` also `("opt", cut, converter, probe name)` entries (warmed / fresh only)"""
+    block_end = {n: prefix_of[n] for n in prefix_of if n + 1 not in prefix_of}   # last probe op of every battery block
+
+    def warmed():
+        impl = Impl(preds)
+        impl.make(cc)
+        res = {}
+        for n, op in enumerate(full):
+            r = impl.do(op)
+            if n in prefix_of:
+                res[n] = r
+            elif op["op"] == "call" or (op["op"] == "get" and op.get("apply", True)):
+                res[("warm", n)] = r == dc.ERR
+            if opt_probes and n in block_end:
+                for j in range(len(impl.convs)):
+                    for k, v in ext_battery(impl, j, OPT_PROBES).items():
+                        res[("opt", block_end[n], j, k[1])] = v
+        if impl.reg_errors:
+            res["regerr"] = impl.reg_errors[0]
+        return res, impl.options_written()
+
+    def fresh(c, j, probes):
+        # a fresh converter constructed with the options of converter j of the store as it is after `c` ops, replaying only
+        # the registrations that make up j's history.  Each probe on the fresh converter also warms it (a new fresh converter
+        # per cut point and converter, no registration follows); it runs the battery in the reverse order of the warmed
+        # converter, so that a probe whose answer depends on which probe came before it differs on one of the two
+        cfgs, regs_of = dc.store_view(history[:c], [cc])
+        f = Impl(preds)
+        f.make(cfgs[j])
+        for op in regs_of[j]:
+            f.do(op)
+        res = {n: f.do(dict(full[n], conv=0)) for n in sorted(probes, reverse=True)}
+        if opt_probes:
+            for k, v in ext_battery(f, 0, OPT_PROBES).items():
+                res[("opt", c, j, k[1])] = v
+        return res, f.options_written()
+
+    res_i, written = dc.in_thread(warmed)
     res_p = {}
-    fresh_cache = {}
-    # each probe on the fresh converter also warms it (a new fresh converter per cut point, no registration follows);
-    # it runs the battery in the reverse order of the warmed converter, so that a probe whose answer depends on which
-    # probe came before it differs on one of the two
-    for n in sorted(prefix_of, reverse=True):
-        c = prefix_of[n]
-        if c not in fresh_cache:
-            f = Impl(preds)
-            f.make(cc)
-            for op in history[:c]:
-                if op["op"] in REG:
-                    f.do(op)
-            fresh_cache[c] = f
-        res_p[n] = fresh_cache[c].do(full[n])
+    groups = {}
+    for n, c in prefix_of.items():
+        groups.setdefault((c, full[n]["conv"]), []).append(n)
+    for (c, j), probes in sorted(groups.items(), reverse=True):
+        r, w = dc.in_thread(fresh, c, j, probes)
+        res_p.update(r)
+        written = written + w
     res_m = {}
+    cfgs, _ = dc.store_view(history, [cc])
+    fraise = dc.fraise_of(history)
     for d in DIRS:
-        mt, ctx = dc.run_model(drv, full, d, [cc], preds)
+        mt, _ = dc.run_model(drv, full, d, [cc], preds)
+        ctxs = [dc.ModelCtx(cj, d, preds) for cj in cfgs]
         for n, term in mt.items():
             if n in prefix_of:
-                key = full[n]["ty"]
-                res_m[n] = (dc.expect(ctx, dc.norm_term(ctx, term), key, Impl.sample(cc, d, U.types[key])), term)
+                key, j = full[n]["ty"], full[n]["conv"]
+                ctxs[j].fraise = fraise
+                res_m[n] = (dc.expect(ctxs[j], dc.norm_term(ctxs[j], term), key, Impl.sample(cfgs[j], d, U.types[key])), term)
     dc.prune_linecache()
-    if impl.reg_errors:
-        res_i["regerr"] = impl.reg_errors[0]
-    written = impl.options_written() + [w for f in fresh_cache.values() for w in f.options_written()]
     if written:
         res_i["options_written"] = written[0]
     return res_i, res_p, res_m
 
 
-def check_case(chk, drv, cc, preds, history, full, prefix_of, corr_fail, stats):
+def check_case(chk, drv, cc, preds, history, full, prefix_of, corr_fail, stats, opt_probes=False):
     case = {"cfg": cc.to_json(), "preds": dc.preds_to_json(preds), "history": history, "full": full,
-            "prefix_of": {str(k): v for k, v in prefix_of.items()}}
-    res_i, res_p, res_m = run_case(drv, cc, preds, history, full, prefix_of)
+            "prefix_of": {str(k): v for k, v in prefix_of.items()}, "opt_probes": opt_probes}
+    res_i, res_p, res_m = run_case(drv, cc, preds, history, full, prefix_of, opt_probes)
     if "regerr" in res_i:
         chk.violation("C08 oracle: a registration raised: " + res_i["regerr"], case)
         stats["oracle_fail"] += 1
@@ -125,13 +194,20 @@ def check_case(chk, drv, cc, preds, history, full, prefix_of, corr_fail, stats):
                       f"options and registrations alone): {res_i['options_written']} [{cc.name()} "
                       f"{' ; '.join(dc.describe(o) for o in history)}]", case)
         stats["oracle_fail"] += 1
-    n_warm = sum(1 for op in history if op["op"] not in REG)
-    n_reg = len(history) - n_warm
+    n_warm = sum(1 for op in history if op["op"] in ("call", "get"))
+    n_reg = sum(1 for op in history if op["op"] in REG)
     key = cc.name() + json.dumps(case["preds"], sort_keys=True) + "|".join(dc.describe(o) for o in full)
     chk.count(key, nontrivial=n_warm > 0 and n_reg > 0,
               sample={"cfg": cc.name(), "history": [dc.describe(o) for o in history][:14]})
     chk.note("cfg:" + cc.name().split("/")[0], "len:%02d" % len(history))
+    if cc.fb_un in dc.STRICT_FB:
+        chk.note("cfg:strict-unstructure-fallback")
     for op in history:
+        if op["op"] == "copy":
+            chk.note("copy:" + op["how"] + (":overrides" if op["kwargs"] else "") + (":of-a-copy" if op["src"] else ""))
+            continue
+        if op.get("fraise"):
+            chk.note("reg:factory-raising-on-accepted-types")
         chk.note(("warm:" if op["op"] not in REG else "reg:") + op["op"] + ":" + op["dir"]
                  + ("" if op["op"] in REG or op["op"] == "call" else (":cached" if op.get("cached", True) else ":uncached")))
     warmed_before_reg = set()
@@ -139,21 +215,103 @@ def check_case(chk, drv, cc, preds, history, full, prefix_of, corr_fail, stats):
     for op in history:
         if op["op"] in REG:
             warmed_before_reg |= seen
-        else:
+        elif op["op"] != "copy":
             seen.add((op["dir"], op["ty"]))
     if warmed_before_reg:
         chk.note("history-registers-after-warming")
+    failed_warm = {(full[k[1]]["conv"], full[k[1]]["dir"], full[k[1]]["ty"]) for k, v in res_i.items()
+                   if isinstance(k, tuple) and k[0] == "warm" and v}
+    for k in [k for k in res_p if isinstance(k, tuple)]:   # option-sensitive probes: warmed store vs fresh replays
+        stats["opt_probes"] = stats.get("opt_probes", 0) + 1
+        if res_i.get(k) != res_p[k]:
+            chk.violation(f"C08 oracle: option-sensitive probe {k[3]} on c{k[2]} after {k[1]} ops: the warmed store gives {res_i.get(k)!r}, a fresh "
+                          f"converter with the same options and registrations gives {res_p[k]!r} [{cc.opts()} "
+                          f"{' ; '.join(dc.describe(o) for o in history)}]", dict(case, probe=list(k)))
+            stats["oracle_fail"] += 1
     for n in sorted(prefix_of):
         stats["probes"] += 1
         op = full[n]
-        where = (f"[{cc.name()} {op['dir']} probe={U.types[op['ty']].name} after {prefix_of[n]} ops of: "
+        where = (f"[{cc.name()} c{op['conv']} {op['dir']} probe={U.types[op['ty']].name} after {prefix_of[n]} ops of: "
                  f"{' ; '.join(dc.describe(o) for o in history)}]")
+        if res_i[n] != dc.ERR and (op["conv"], op["dir"], op["ty"]) in failed_warm:
+            chk.note("probe-succeeds-on-a-type-whose-earlier-call-failed")
         if res_i[n] != res_p[n]:
             chk.violation(f"C08 oracle: warmed converter gives {res_i[n]!r}, a fresh converter with the same registrations "
                           f"gives {res_p[n]!r} {where}", dict(case, probe=n))
             stats["oracle_fail"] += 1
         elif res_i[n] != res_m[n][0]:
             corr_fail.append((case, n, res_i[n], res_m[n], where))
+
+
+def depends_on(key, seen=None):
+    """keys of the types the hook for `key` may depend on: the type itself, the classes of its MRO, and -- recursively --
+    its component types"""
+    seen = set() if seen is None else seen
+    if key in seen:
+        return seen
+    seen.add(key)
+    seen.update(U.mro.get(key, ()))
+    for p in U.types[key].parts:
+        depends_on(p, seen)
+    return seen
+
+
+def immediacy_cases(rng, quick):
+    """(cc, preds, history, battery names): all types depending on registration target r are warmed (in a random order, by
+    structure / unstructure / get_*_hook), then r is registered -- class / NewType / union hook, predicate hook, hook factory,
+    or a hook registered AFTER a hook factory that raises on r made the warm-ups fail -- then the same types are probed"""
+    n = 0
+    for rname in dc.REG_TARGETS:
+        r = U.k(rname)
+        affected = [t.name for t in U.types if t.name in dc.PROBES and r in depends_on(t.key)]
+        for klass in ("Converter", "BaseConverter"):
+            for d in DIRS:
+                for strict in ((0, 1) if d == UN else (0,)):
+                    cc = ConvCfg(klass=klass, fb_un=dc.STRICT_FB[0] * strict)
+                    names = [nm for nm in affected if not dc.excluded(cc, d, U.k(nm))]
+                    for kind in ("hook", "func", "factory", "hook-after-raising-factory"):
+                        n += 1
+                        if quick and kind in ("func", "factory") and (n + strict) % 2:
+                            continue
+                        preds = {1: ({r}, set())}
+                        order = list(names)
+                        rng.shuffle(order)
+                        hist = []
+                        if kind == "hook-after-raising-factory":
+                            hist.append({"op": "factory", "conv": 0, "dir": d, "pred": 1, "tag": 1, "extended": bool(n % 2), "form": "call",
+                                         "fraise": [r]})
+                        for nm in order:
+                            w = {"conv": 0, "dir": d, "ty": U.k(nm)}
+                            w.update({"op": "call"} if rng.random() < 0.5 else
+                                     {"op": "get", "cached": rng.random() < 0.7, "apply": rng.random() < 0.5})
+                            hist.append(w)
+                        if kind in ("hook", "hook-after-raising-factory"):
+                            hist.append({"op": "hook", "conv": 0, "dir": d, "ty": r, "tag": 2, "form": ("call", "deco")[n % 2]})
+                        elif kind == "func":
+                            hist.append({"op": "func", "conv": 0, "dir": d, "pred": 1, "tag": 2})
+                        else:
+                            hist.append({"op": "factory", "conv": 0, "dir": d, "pred": 1, "tag": 2, "extended": bool(n % 2), "form": "call"})
+                        yield cc, preds, hist, names, d
+
+
+def copy_sweep_cases():
+    """(cc, preds, history, cuts): the source is used on everything (universe battery + option-sensitive probes at cut 0),
+    then copied -- every way of copying, every option `copy()` can override, one at a time -- then the SOURCE receives
+    registrations (hooks that call back into the converter they were built for would show them on the copy)"""
+    per = {"Converter": [("copy", {}), ("deepcopy", {}), ("copy", {"detailed_validation": False}), ("copy", {"unstruct_strat": "astuple"}),
+                         ("copy", {"omit_if_default": True}), ("copy", {"forbid_extra_keys": True}),
+                         ("copy", {"unstruct_collection_overrides": {"set": "list"}}), ("copy", {"unstruct_collection_overrides": {"Sequence": "tuple"}}),
+                         ("copy", {"type_overrides": {"float": "F"}}), ("copy", {"prefer_attrib_converters": True}),
+                         ("copy", {"dict_factory": "OrderedDict"})],
+           "BaseConverter": [("copy", {}), ("deepcopy", {}), ("copy", {"detailed_validation": False}), ("copy", {"unstruct_strat": "astuple"}),
+                             ("copy", {"prefer_attrib_converters": True}), ("copy", {"dict_factory": "OrderedDict"})]}
+    for klass, hows in per.items():
+        cc = ConvCfg(klass=klass)
+        for n, (how, kw) in enumerate(hows):
+            hist = [dc.copy_op(0, cc, kw, how)]
+            for i, nm in enumerate(("A", "int", "P")):
+                hist.append({"op": "hook", "conv": n % 2, "dir": DIRS[(n + i) % 2], "ty": U.k(nm), "tag": i + 1, "form": "call"})
+            yield cc, {1: (set(), set())}, hist
 
 
 def run(chk: framework.Check):
@@ -198,15 +356,26 @@ def run(chk: framework.Check):
                         history += [dict(w), dict(r, tag=i + 1)]
                     full, prefix_of = with_batteries(rng, cc, history, 0, small_battery)
                     check_case(chk, drv, cc, alpha_preds, history, full, prefix_of, corr_fail, stats)
-    # ---- random interleavings
-    n_rand = 600 if quick else 6000
+    # ---- immediacy sweep: every registration target x kind, after everything that depends on it was used
+    for cc, preds, history, names, d in immediacy_cases(rng, quick):
+        full, prefix_of = with_batteries(rng, cc, history, 0, names, dirs=(d,))
+        chk.note("immediacy-sweep:" + d + (":strict-fallback" if cc.fb_un else ""))
+        check_case(chk, drv, cc, preds, history, full, prefix_of, corr_fail, stats)
+    # ---- copy sweep: a used converter is copied in every way / with every option override
+    for cc, preds, history in copy_sweep_cases():
+        full, prefix_of = with_batteries(rng, cc, history, 0, battery, cuts=[0, len(history)])
+        chk.note("copy-sweep")
+        check_case(chk, drv, cc, preds, history, full, prefix_of, corr_fail, stats, opt_probes=True)
+    # ---- random interleavings; a third of them with copy steps (probed on every converter, also option-sensitively)
+    n_rand = 420 if quick else 6000
     max_ops = 14 if quick else 24
-    for _ in range(n_rand):
+    for i in range(n_rand):
         cc = gen_cfg(rng)
         preds = dc.gen_preds(rng)
-        history = build_history(rng, cc, preds, rng.randint(2, max_ops))
-        full, prefix_of = with_batteries(rng, cc, history, 2, battery)
-        check_case(chk, drv, cc, preds, history, full, prefix_of, corr_fail, stats)
+        copies = rng.choice([1, 1, 2]) if i % 3 == 0 else 0
+        history = build_history(rng, cc, preds, rng.randint(2, max_ops), copies=copies)
+        full, prefix_of = with_batteries(rng, cc, history, 1 if copies else 2, battery)
+        check_case(chk, drv, cc, preds, history, full, prefix_of, corr_fail, stats, opt_probes=bool(copies))
     if corr_fail and not stats["oracle_fail"]:
         for case, n, ri, rm, where in corr_fail[:5]:
             chk.violation("correspondence corr:C08:RUNHIST broken (theorems C08_* no longer tied to the code): "
@@ -214,7 +383,11 @@ def run(chk: framework.Check):
     chk.extra["rule"] = ("histories interleaving registrations (all kinds, both directions) with warm-up calls (structure, "
                          "unstructure, get_*_hook cached/uncached, on class and composite types); probe batteries at cut points and "
                          "at the end compared with a fresh converter replaying only the registrations; non-trivial = at least one "
-                         "warm-up and one registration; distinct by configuration+history text")
+                         "warm-up and one registration; distinct by configuration+history text; + immediacy sweep (every registration target x "
+                         "kind after ALL dependent types were used, also under a strict fallback factory / after a raising hook factory); "
+                         "+ copy steps inside the histories (every converter of the store vs a fresh converter with its options and "
+                         "registrations, option-sensitive collection probes included); reference runs on threads of their own")
+    chk.extra["option_sensitive_probes"] = stats.get("opt_probes", 0)
     derived_stream(chk, 400 if quick else 4000)
     chk.extra["probes"] = stats["probes"]
     chk.extra["correspondence_disagreements"] = len(corr_fail)
@@ -235,8 +408,12 @@ def replay(case):
               f"{[(U.types[k].name, dc.pred_exception(p, k).__name__) for k in sorted(r)]}")
     for op in history:
         print("  ", dc.describe(op))
-    res_i, res_p, res_m = run_case(drv, cc, preds, history, full, prefix_of)
+    res_i, res_p, res_m = run_case(drv, cc, preds, history, full, prefix_of, case.get("opt_probes", False))
     rc = 0
+    for k in [k for k in res_p if isinstance(k, tuple)]:
+        if res_i.get(k) != res_p[k]:
+            print(f"option-sensitive probe {k[3]} on c{k[2]} after {k[1]} ops: warmed={res_i.get(k)!r} fresh={res_p[k]!r} -> VIOLATED")
+            rc = 1
     for n in sorted(prefix_of):
         if "probe" in case and case["probe"] != n:
             continue
